@@ -42,7 +42,13 @@ type RecKV struct {
 	EmptyNonNil bool
 	mu          sync.Mutex
 	log         []KVEvent
+	before      func(op, key string)
 }
+
+// SetBefore installs (or clears, with nil) a callback that runs before a lease acquisition is
+// passed to the wrapped store: a place to perturb the schedule of concurrent requests exactly
+// where they serialise.
+func (k *RecKV) SetBefore(f func(op, key string)) { k.mu.Lock(); k.before = f; k.mu.Unlock() }
 
 func NewRecKV(inner chord.KVProvider) *RecKV { return &RecKV{KVProvider: inner} }
 
@@ -117,6 +123,12 @@ func (k *RecKV) PrefixRemove(ctx context.Context, prefix, child []byte) error {
 	return err
 }
 func (k *RecKV) Acquire(ctx context.Context, lease []byte, ttl time.Duration) (uint64, error) {
+	k.mu.Lock()
+	bf := k.before
+	k.mu.Unlock()
+	if bf != nil {
+		bf("Acquire", string(lease))
+	}
 	v, err := k.KVProvider.Acquire(ctx, lease, ttl)
 	k.rec("Acquire", string(lease), ttl.String(), true, err)
 	return v, err
